@@ -133,13 +133,13 @@ theorem foldl_min_le (l : List Nat) : ∀ a, l.foldl min a ≤ a ∧ (∀ x ∈ 
         · right; simp; left; omega
       · right; exact List.mem_cons_of_mem _ h3
 
-theorem foldl_add_eq_sum (l : List Nat) (F : Nat → Nat) : ∀ a,
+theorem foldl_addF_eq_sum (l : List Nat) (F : Nat → Nat) : ∀ a,
     l.foldl (fun acc x => acc + F x) a = a + (l.map F).sum := by
   induction l with
   | nil => intro a; simp
   | cons y ys ih => intro a; simp [ih, Nat.add_assoc]
 
-theorem foldl_add_eq_sum' (l : List Nat) : ∀ a, l.foldl (· + ·) a = a + l.sum := by
+theorem foldl_add_eq_sum_L (l : List Nat) : ∀ a, l.foldl (· + ·) a = a + l.sum := by
   induction l with
   | nil => intro a; simp
   | cons y ys ih => intro a; simp [ih, Nat.add_assoc]
@@ -422,13 +422,13 @@ theorem maxHssSigLen_eq (c : Config) : c.maxHssSigLen =
 
 theorem maxHssSigLen_eq_sum (c : Config) : c.maxHssSigLen =
     4 + ((List.range' 1 (c.maxLevels - 1)).map fun level => levelSigCap c level + 56).sum + levelSigCap c 0 := by
-  rw [maxHssSigLen_eq, foldl_add_eq_sum]
+  rw [maxHssSigLen_eq, foldl_addF_eq_sum]
   simp [List.range_eq_range']
 
 theorem hssSigLen_eq_sum (n : Nat) (ps : List HssParam) : hssSigLen n ps =
     4 + (ps.map fun p => lms_signature_length n p.ots.p p.lms.h).sum + (ps.length - 1) * lms_public_key_length n := by
   unfold hssSigLen
-  rw [foldl_add_eq_sum']
+  rw [foldl_add_eq_sum_L]
   simp
 
 /-- termwise comparison of the levels `k, k+1, …` -/
